@@ -2,7 +2,5 @@
 From JP Require Import Base.Json Model.Ast Gen.Env.
 Theorem env_constants_regenerated :
   g_builtin_registry = builtin_registry /\ g_max_int_index = 2 ^ 53 - 1 /\ g_min_int_index = - (2 ^ 53) + 1 /\
-  g_nondeterministic = false /\ g_match_flags = 0%nat /\ g_search_flags = 0%nat /\
-  g_match_entry = [102; 117; 108; 108; 109; 97; 116; 99; 104]%N /\ g_search_entry = [115; 101; 97; 114; 99; 104]%N.
+  g_nondeterministic = false.
 Proof. repeat split; reflexivity. Qed.
-
